@@ -461,6 +461,11 @@ def run(ctx):
     ctx.selftest["perturbed_histories_rejected"] = "%d/%d" % (flagged, len(pert))
     if pert and flagged != len(pert):
         raise vlib.ToolError("binding self-test failed: %d of %d corrupted histories accepted" % (len(pert) - flagged, len(pert)))
+    # the monitor channel: what an application watching its connections come and go is told (Monitor.tla).
+    # Not part of the statement of C17: a rejected stream is a NOTE (model drift), never a VIOLATION.
+    from props import monlib
+    ctx.model_check("MC_Monitor", "MC_Monitor_thorough.cfg" if thorough else "MC_Monitor_quick.cfg", workers=8, timeout=2400)
+    monlib.check(ctx, thorough=thorough)
     ctx.assumptions += [
         "a measured gap may fall 15 ms short of its nominal delay and exceed its bound by 450 ms (100 ms maintenance tick, connect and handshake time, scheduling)",
         "RECONNECT_IVL_MAX below RECONNECT_IVL counts as not set (libzmq ignores such a value); those pairs are not explored",
